@@ -16,6 +16,7 @@ import (
 	"io"
 	"log"
 	"net/http/httptest"
+	"sort"
 	"strings"
 	"testing"
 	"time"
@@ -29,7 +30,7 @@ import (
 type c11Config struct {
 	N     int    `json:"n"`
 	Unit  string `json:"unit"`
-	Proxy string `json:"proxy"` // "" = CLI middleware; "trust-all", "trust-set" = library middleware
+	Proxy string `json:"proxy"`              // "" = CLI middleware; "trust-all", "trust-set" = library middleware
 	Spell string `json:"spelling,omitempty"` // the unit as written in the declaration when it is not the lower-case word
 }
 
@@ -455,102 +456,129 @@ func TestVerif_C11(t *testing.T) {
 		cfgs = append(cfgs, c11Config{N: 2, Unit: sp[0], Spell: sp[1]})
 	}
 	cfgs = append([]c11Config{{N: 1, Unit: "min", Proxy: "flood"}, {N: 2, Unit: "min", Proxy: "flood"}}, cfgs...)
+	// the shallow configurations (spellings, X-Real-IP) first: a run cut short by its time budget then loses the tail of
+	// the deep histories of the main configurations, not whole configurations
+	sort.SliceStable(cfgs, func(i, j int) bool {
+		sh := func(c c11Config) bool { return c.Spell != "" || strings.HasSuffix(c.Proxy, "/xri") }
+		return sh(cfgs[i]) && !sh(cfgs[j])
+	})
 	res.Bounds["history_depth"] = depth
 	res.Bounds["configurations"] = len(cfgs)
 	c11Schedules(p, res)
 	// work items: (config, first event) so that 16 shards stay busy
+	// two passes (iterative deepening): pass 0 runs every configuration, the main ones one event short of the depth
+	// bound; pass 1 runs the main configurations at the depth bound.  A run cut short by its time budget has then
+	// completed depth-1 for every configuration instead of the full depth for the first few.
 	item := 0
-	for _, cfg := range cfgs {
-		alpha := c11Alphabet(cfg)
-		depth := depth
-		if cfg.Proxy == "flood" {
-			depth = 4
-			res.Bounds["flood_history_depth"] = depth
-		} else if cfg.Spell != "" || strings.HasSuffix(cfg.Proxy, "/xri") {
-			depth = 5
-			res.Bounds["spelling_and_x_real_ip_history_depth"] = depth
-		} else {
-			res.Bounds["alphabet_size"] = len(alpha)
-		}
-		for first := range alpha {
-			item++
-			if !p.Mine(item) {
+	passExpired := [2]bool{}
+	for pass := 0; pass < 2; pass++ {
+		for _, cfg := range cfgs {
+			alpha := c11Alphabet(cfg)
+			depth := depth
+			shallow := true
+			if cfg.Proxy == "flood" {
+				depth = 4
+				res.Bounds["flood_history_depth"] = depth
+			} else if cfg.Spell != "" || strings.HasSuffix(cfg.Proxy, "/xri") {
+				depth = 5
+				res.Bounds["spelling_and_x_real_ip_history_depth"] = depth
+			} else {
+				res.Bounds["alphabet_size"] = len(alpha)
+				shallow = false
+				if pass == 0 {
+					depth--
+				}
+			}
+			if shallow && pass == 1 {
 				continue
 			}
-			// minimal-failure bookkeeping: a history is only expanded while it has no failure
-			var rec func(h []c11Event)
-			rec = func(h []c11Event) {
-				if p.Expired() {
-					res.Exhaustive = false
-					return
+			for first := range alpha {
+				item++
+				if !p.Mine(item) {
+					continue
 				}
-				// inner nodes are executed only near the root (to prune failing
-				// subtrees early); deeper prefixes are judged as part of their
-				// leaves, whose stepwise oracle reports the first failing step
-				if len(h) < depth && len(h) > 3 {
-					for _, e := range alpha {
-						rec(append(append([]c11Event{}, h...), e))
-					}
-					return
-				}
-				at, fail, resp := c11Run(cfg, h)
-				res.Transitions += int64(len(h))
-				res.Evaluations++
-				res.States++
-				hasReq := false
-				for _, e := range h {
-					if e.Kind == "req" {
-						hasReq = true
-					}
-				}
-				if hasReq {
-					res.Distinct++
-				}
-				if fail != "" {
-					m, mf := c11Shrink(cfg, h[:at+1], fail)
-					res.Violate(c11Key(cfg, m, mf), fmt.Sprintf("%s: history %v: %s", cfg, m, mf),
-						c11Replay{Part: "hist", Config: cfg, Events: m})
-					return
-				}
-				if len(h) < depth {
-					for _, e := range alpha {
-						rec(append(append([]c11Event{}, h...), e))
-					}
-					return
-				}
-				// leaf. isolation: A's responses are unchanged when the other
-				// clients' requests are deleted (prefixes are covered: deletion
-				// commutes with taking a prefix)
-				var ha []c11Event
-				dropped := false
-				for _, e := range h {
-					if (e.Kind == "req" && c11Client(cfg, e) != ipA) || e.Kind == "flood" {
-						dropped = true
-						continue
-					}
-					ha = append(ha, e)
-				}
-				if dropped {
-					_, f2, resp2 := c11Run(cfg, ha)
-					res.Evaluations++
-					var ra []string
-					for _, r := range resp {
-						if strings.HasPrefix(r, ipA+":") {
-							ra = append(ra, r)
-						}
-					}
-					if f2 == "" && strings.Join(ra, ",") != strings.Join(resp2, ",") {
-						res.Violate(c11Key(cfg, h, "changed when"), fmt.Sprintf("%s: history %v: responses to %s are %v but %v changed when the other client's requests are removed", cfg, h, ipA, ra, resp2),
-							c11Replay{Part: "hist", Config: cfg, Events: append([]c11Event{}, h...)})
+				// minimal-failure bookkeeping: a history is only expanded while it has no failure
+				var rec func(h []c11Event)
+				rec = func(h []c11Event) {
+					if p.Expired() {
+						res.Exhaustive = false
+						passExpired[pass] = true
 						return
 					}
+					// inner nodes are executed only near the root (to prune failing
+					// subtrees early); deeper prefixes are judged as part of their
+					// leaves, whose stepwise oracle reports the first failing step
+					if len(h) < depth && len(h) > 3 {
+						for _, e := range alpha {
+							rec(append(append([]c11Event{}, h...), e))
+						}
+						return
+					}
+					at, fail, resp := c11Run(cfg, h)
+					res.Transitions += int64(len(h))
+					res.Evaluations++
+					res.States++
+					hasReq := false
+					for _, e := range h {
+						if e.Kind == "req" {
+							hasReq = true
+						}
+					}
+					if hasReq {
+						res.Distinct++
+					}
+					if fail != "" {
+						m, mf := c11Shrink(cfg, h[:at+1], fail)
+						res.Violate(c11Key(cfg, m, mf), fmt.Sprintf("%s: history %v: %s", cfg, m, mf),
+							c11Replay{Part: "hist", Config: cfg, Events: m})
+						return
+					}
+					if len(h) < depth {
+						for _, e := range alpha {
+							rec(append(append([]c11Event{}, h...), e))
+						}
+						return
+					}
+					// leaf. isolation: A's responses are unchanged when the other
+					// clients' requests are deleted (prefixes are covered: deletion
+					// commutes with taking a prefix)
+					var ha []c11Event
+					dropped := false
+					for _, e := range h {
+						if (e.Kind == "req" && c11Client(cfg, e) != ipA) || e.Kind == "flood" {
+							dropped = true
+							continue
+						}
+						ha = append(ha, e)
+					}
+					if dropped {
+						_, f2, resp2 := c11Run(cfg, ha)
+						res.Evaluations++
+						var ra []string
+						for _, r := range resp {
+							if strings.HasPrefix(r, ipA+":") {
+								ra = append(ra, r)
+							}
+						}
+						if f2 == "" && strings.Join(ra, ",") != strings.Join(resp2, ",") {
+							res.Violate(c11Key(cfg, h, "changed when"), fmt.Sprintf("%s: history %v: responses to %s are %v but %v changed when the other client's requests are removed", cfg, h, ipA, ra, resp2),
+								c11Replay{Part: "hist", Config: cfg, Events: append([]c11Event{}, h...)})
+							return
+						}
+					}
+					if res.Evaluations%997 == 0 {
+						res.Sample(4, map[string]any{"config": cfg.String(), "history": fmt.Sprint(h), "responses": resp})
+					}
 				}
-				if res.Evaluations%997 == 0 {
-					res.Sample(4, map[string]any{"config": cfg.String(), "history": fmt.Sprint(h), "responses": resp})
-				}
+				rec([]c11Event{alpha[first]})
 			}
-			rec([]c11Event{alpha[first]})
 		}
+	}
+	if !passExpired[0] {
+		res.Count("shards_that_completed_every_configuration_at_depth_bound_minus_1", 1)
+	}
+	if !passExpired[0] && !passExpired[1] {
+		res.Count("shards_that_completed_every_configuration_at_depth_bound", 1)
 	}
 	res.Write(p)
 }
@@ -692,14 +720,13 @@ func c11Schedules(p vk.Params, res *vk.Result) {
 		bound = 3
 	}
 	res.Bounds["preemption_bound"] = bound
-	for si, sc := range c11Scens() {
-		if !p.Mine(si) {
-			continue
-		}
+	for _, sc := range c11Scens() {
+		// every scenario is spread over all shards (a shard explores its share of the first-level alternatives): the
+		// three-thread scenarios are far more expensive than the others
 		seq := c11SeqOutcomes(sc)
 		var statuses []string
 		outcomes := vk.DistinctSet{}
-		st := vrt.Explore(vrt.Config{MaxPreempt: bound, Races: true, NoAutoTimers: true, Deadline: p.Deadline},
+		st := vrt.Explore(vrt.Config{MaxPreempt: bound, Races: true, NoAutoTimers: true, Deadline: p.Deadline, Shard: p.Shard, NShard: p.NShard},
 			func() { statuses = nil; c11Concurrent(sc, &statuses)() },
 			func(x *vrt.Exec) bool {
 				outcomes.Add(strings.Join(statuses, ","))
@@ -717,7 +744,7 @@ func c11Schedules(p vk.Params, res *vk.Result) {
 		res.States += int64(st.States)
 		res.Distinct += outcomes.Len()
 		res.Count("schedules", int64(st.Execs))
-		res.Count("sched_outcomes_"+sc.Name, outcomes.Len())
+		res.Count("sched_outcomes_seen_summed_over_shards_"+sc.Name, outcomes.Len())
 		if !st.Complete {
 			res.Exhaustive = false
 		}
